@@ -140,7 +140,7 @@ func c17Value(r *Rand, tag string) any {
 	case 1:
 		return fmt.Sprintf("s%d-%s", r.Intn(100), tag)
 	case 2:
-		return map[string]any{"b": fmt.Sprintf("nb%d", r.Intn(100)), "c": []any{1, "two", map[string]any{"d": "deep"}}}
+		return map[string]any{"b": fmt.Sprintf("nb%d", r.Intn(100)), "c": []any{1, "two", map[string]any{"d": "deep"}}, "b c": "with-blank", "bc": "without-blank"}
 	case 3:
 		return []any{fmt.Sprintf("e%d", r.Intn(10)), r.Intn(10), "x"}
 	case 4:
@@ -198,7 +198,7 @@ func genC17(seed uint64, run int, tier string) *RunSpec {
 			op.Name = name
 		case k < 78:
 			op.Op = "resolve"
-			op.Path = Pick(r, []string{"a.b", "a.c[0]", "a.c[2].d", "b[1]", "c.b", "a.c[9]", "a['b']", "user.name", "a.c[-1]", "zz.q", "a.b.c"})
+			op.Path = Pick(r, []string{"a.b", "a.c[0]", "a.c[2].d", "b[1]", "c.b", "a.c[9]", "a['b']", "user.name", "a.c[-1]", "zz.q", "a.b.c", "a['b c']", "a['bc']", "c['b c']", "c['bc']"})
 			if r.Chance(30) {
 				op.Path = fmt.Sprintf("a.p%d", r.Intn(400)) // fresh paths (path cache misses)
 			}
